@@ -46,13 +46,16 @@ def lorentz_spec(x, A, mu, s):
 def run(chk):
     chk.trust('scipp model: arithmetic, in-place operators, exp, reciprocal, full; math.pi / math.sqrt / math.log(2) as symbolic constants')
     chk.trust('function congruence: exp(a) == exp(b) when a == b is proved (used to connect the code\'s exponent with the spec\'s)')
-    chk.trust('exp(-ln 2) == 1/2, exp positive (instantiated)')
+    chk.textbook('exp(-ln 2) == 1/2, ln 2 > 0, exp positive, sqrt and pi facts (instantiated)', ['exp_neg_log_two', 'log_two_pos', 'exp_facts', 'sqrt_facts', 'pi_bounds'])
     chk.trust('z3 / cvc5')
     chk.assume('floats are reals')
-    chk.assume('normalisation clause (integral over the real line equals the amplitude): the two improper integrals '
-               'int exp(-t^2/2) dt = sqrt(2 pi) and int dt/(1+t^2) = pi are classical (Mathlib: integral_gaussian, '
-               'integral_univ_inv_one_add_sq); given the closed forms proved here they imply int G = int L = A and hence int PV = A. '
-               'Not machine-checked in this run unless evidence.lean_checked says so')
+    # normalisation: the closed forms proved below are exactly the integrands of three Lean theorems (lean/TextbookFacts.lean)
+    chk.lean_obligation('peaks.model:models/gaussian/normalised: integral over the real line == amplitude', 'gaussian_normalised',
+                        'for sigma > 0: int A/(sqrt(2 pi) sigma) exp(-(x-mu)^2/(2 sigma^2)) dx == A')
+    chk.lean_obligation('peaks.model:models/lorentzian/normalised: integral over the real line == amplitude', 'lorentzian_normalised',
+                        'for gamma > 0: int (A/pi) gamma/((x-mu)^2+gamma^2) dx == A')
+    chk.lean_obligation('peaks.model:models/pseudo-voigt/normalised: integral over the real line == amplitude', 'pseudo_voigt_normalised',
+                        'for s > 0: int alpha L(x; s) + (1-alpha) G(x; s/sqrt(2 ln 2)) dx == A')
     chk.assume('prefix handling is checked on a finite, adversarial set of prefixes (bounded), not for a symbolic string')
     mod = kit.load(MOD)
     chk.section('closed_forms', closed_forms, mod)
